@@ -251,3 +251,6 @@ func vfNowNs() int64             { return time.Now().UnixNano() }
 func vfLiveGoroutines() int      { return 0 }
 func vfBlockedAt(sub string) int { return 0 }
 func vfPendingTimers() int       { return 0 }
+
+// vfIteLifting: gse normaliser option (lift if-then-else through sums); used by the relational harnesses.
+func vfIteLifting(on bool) {}
